@@ -5,6 +5,7 @@ import (
 	"go/ast"
 	"go/types"
 	"sort"
+	"strconv"
 	"strings"
 
 	rast "github.com/open-policy-agent/opa/ast"
@@ -77,48 +78,92 @@ func c12Ids(c *Ctx) {
 		return
 	}
 	key := relOf(pk) + "." + idFn.Name.Name
-	// formats of the recursive calls
-	var objFmt, arrFmt string
-	var objArgKey, arrArgIdx bool
-	ast.Inspect(idFn.Body, func(n ast.Node) bool {
-		call, ok := n.(*ast.CallExpr)
-		if !ok {
-			return true
+	// E-sym: evaluate the id function; its recursive calls (not interpreted: recursion) carry the child ids
+	var params []types.Object
+	for _, f := range idFn.Type.Params.List {
+		for _, nm := range f.Names {
+			params = append(params, info.Defs[nm])
 		}
-		if id, ok := call.Fun.(*ast.Ident); !ok || id.Name != idFn.Name.Name || len(call.Args) != 2 {
-			return true
-		}
-		sp, ok := ast.Unparen(call.Args[1]).(*ast.CallExpr)
-		if !ok || funcFullName(calleeOf(info, sp)) != "fmt.Sprintf" || len(sp.Args) != 3 {
-			return true
-		}
-		format, _ := constString(info, sp.Args[0])
-		last := sp.Args[2]
-		tv := info.Types[last]
-		if b, ok := tv.Type.Underlying().(*types.Basic); ok && b.Info()&types.IsInteger != 0 {
-			arrFmt = format
-			arrArgIdx = true
-		} else if ok && b.Kind() == types.String {
-			objFmt = format
-			objArgKey = true
-		}
-		return true
-	})
-	r.Check(objFmt == "%s_%s" && objArgKey, "C12.J1", key+"#object-children", p.Pos(idFn.Pos()), "a child under key k is named parent_k", fmt.Sprintf("object children are not named parent_key (format %q)", objFmt))
-	r.Check(arrFmt == "%s_%d" && arrArgIdx, "C12.J1", key+"#array-children", p.Pos(idFn.Pos()), "the i-th element of an array is named parent_i", fmt.Sprintf("array elements are not named parent_index (format %q)", arrFmt))
-	// the id is assigned exactly when the node is typed, and recursion happens for all keys (range over the node)
-	hasRange := false
-	ast.Inspect(idFn.Body, func(n ast.Node) bool {
-		if rs, ok := n.(*ast.RangeStmt); ok {
-			if tv, ok := info.Types[rs.X]; ok {
-				if _, isMap := tv.Type.Underlying().(*types.Map); isMap {
-					hasRange = true
+	}
+	if len(params) != 2 {
+		r.Unknown("C12.J1", key+"#signature", p.Pos(idFn.Pos()), "the id function does not take (node, id)")
+		return
+	}
+	nodeP, idP := params[0].Name(), params[1].Name()
+	self := info.Defs[idFn.Name]
+	objOK, arrOK, objSeen, arrSeen := true, true, 0, 0
+	var objWhy, arrWhy string
+	idStoreOK, idStoreSeen := true, 0
+	idStoreWhy := ""
+	typedCond := func(cs []symCond) (bool, string) {
+		// exactly: the node has an @type key
+		var rest []string
+		typed := false
+		for _, cnd := range cs {
+			s, neg := cnd.Cond, cnd.Neg
+			for s != nil && s.K == symNot {
+				s, neg = s.X, !neg
+			}
+			if s != nil && s.K == symCall && s.Fn == "result1" && len(s.Parts) == 1 && s.Parts[0].K == symIndex {
+				if k, _ := s.Parts[0].Y.ConstString(); k == "@type" && !neg {
+					typed = true
+					continue
 				}
 			}
+			if s != nil && s.K == symCall && s.Fn == "typeis" {
+				continue
+			}
+			if s != nil && s.K == symCall && strings.HasPrefix(s.Fn, "result1") && !neg {
+				continue // the `, ok` of a type assertion selecting the kind of child
+			}
+			rest = append(rest, cnd.String())
 		}
-		return true
-	})
-	r.Check(hasRange, "C12.J1", key+"#visits-all-keys", p.Pos(idFn.Pos()), "every key of a typed node is visited", "the id function does not range over all keys of the node")
+		return typed && len(rest) == 0, strings.Join(rest, " && ")
+	}
+	proto := &symWalker{}
+	proto.OnStore = func(w *symWalker, at ast.Node, target *Sym, k *Sym, val *Sym) {
+		if ks, ok := k.ConstString(); !ok || ks != "@id" {
+			return
+		}
+		idStoreSeen++
+		okc, rest := typedCond(w.Conds())
+		if target.String() != nodeP || val.String() != idP || !okc || len(w.Loops()) != 0 {
+			idStoreOK = false
+			idStoreWhy = fmt.Sprintf("@id of %s is set to %s under [%s] %s", target.String(), val.String(), condsText(w.Conds()), rest)
+		}
+	}
+	proto.OnCall = func(w *symWalker, call *ast.CallExpr, fn types.Object, args []*Sym, result *Sym) {
+		if fn != self || len(args) != 2 {
+			return
+		}
+		loops := w.Loops()
+		child, cid := args[0].String(), args[1].String()
+		okc, rest := typedCond(w.Conds())
+		switch {
+		case len(loops) == 1 && loops[0].String() == nodeP:
+			objSeen++
+			want := idP + `+"_"+#` + nodeP
+			if child != nodeP+"[*]" || cid != want || !okc {
+				objOK = false
+				objWhy = fmt.Sprintf("the child %s is named %s (expected %s) under [%s] %s", child, cid, want, condsText(w.Conds()), rest)
+			}
+		case len(loops) == 2 && loops[0].String() == nodeP && loops[1].String() == nodeP+"[*]":
+			arrSeen++
+			want := idP + `+"_"+#` + nodeP + "[*]"
+			if child != nodeP+"[*][*]" || cid != want || !okc {
+				arrOK = false
+				arrWhy = fmt.Sprintf("the element %s is named %s (expected %s) under [%s] %s", child, cid, want, condsText(w.Conds()), rest)
+			}
+		default:
+			objOK = false
+			objWhy = "a recursive call outside `for key, value := range node` / `for index, element := range value`"
+		}
+	}
+	p.SymWalk(pk, idFn, proto, nil)
+	r.Check(objOK && objSeen == 1, "C12.J1", key+"#object-children", p.Pos(idFn.Pos()), "a child under key k is named parent_k", "object children are not named parent_key: "+objWhy)
+	r.Check(arrOK && arrSeen == 1, "C12.J1", key+"#array-children", p.Pos(idFn.Pos()), "the i-th element of an array is named parent_i", "array elements are not named parent_index: "+arrWhy)
+	r.Check(idStoreOK && idStoreSeen == 1, "C12.J1", key+"#id-iff-typed", p.Pos(idFn.Pos()), "the node's @id is the id it was called with, exactly when the node has an @type", "the node's own @id: "+idStoreWhy)
+	r.Check(objSeen >= 1, "C12.J1", key+"#visits-all-keys", p.Pos(idFn.Pos()), "every key of a typed node is visited", "the id function does not range over all keys of the node")
 
 	// constructors: object literals of the preamble with an @type key
 	rp, err := loadPreamble(p)
@@ -232,53 +277,36 @@ func c12Ids(c *Ctx) {
 			})
 		}
 	}
-	// results are appended (no indexed writes into the result list)
-	for _, f := range pk.Syntax {
-		for _, d := range f.Decls {
-			fd, ok := d.(*ast.FuncDecl)
-			if !ok || fd.Body == nil {
-				continue
-			}
-			// the function that tags buckets: has >= 2 range loops calling a module function with a constant level word
-			loops, appended, indexed := 0, 0, 0
-			ast.Inspect(fd.Body, func(n ast.Node) bool {
-				rs, ok := n.(*ast.RangeStmt)
-				if !ok {
-					return true
-				}
-				tags := false
-				ast.Inspect(rs.Body, func(q ast.Node) bool {
-					if call, ok := q.(*ast.CallExpr); ok && len(call.Args) >= 1 {
-						if s, ok := constString(info, call.Args[0]); ok && isLevelWord(s) {
-							tags = true
-						}
-					}
-					return true
-				})
-				if !tags {
-					return true
-				}
-				loops++
-				for _, st := range rs.Body.List {
-					as, ok := st.(*ast.AssignStmt)
-					if !ok || len(as.Lhs) != 1 {
-						continue
-					}
-					if _, isIdx := as.Lhs[0].(*ast.IndexExpr); isIdx {
-						indexed++
-					}
-					if call, ok := ast.Unparen(as.Rhs[0]).(*ast.CallExpr); ok {
-						if id, ok := call.Fun.(*ast.Ident); ok && id.Name == "append" {
-							appended++
-						}
-					}
-				}
-				return true
-			})
-			if loops >= 2 {
-				r.Check(indexed == 0 && appended == loops, "C12.J1", relOf(pk)+"."+fd.Name.Name+"#results-appended", p.Pos(fd.Pos()), fmt.Sprintf("%d bucket loops, each appends its tagged result", loops), fmt.Sprintf("the result list is filled by indexed writes (%d) instead of appends (%d of %d loops): a wrong offset overwrites results and leaves null entries", indexed, appended, loops))
-			}
+	// root ids and the result list: evaluated on the report builder (shared with C03.L4)
+	m, err := loadReportBuilder(p)
+	if err != nil {
+		r.Unknown("C12.J1", "builder", "", err.Error())
+		return
+	}
+	roots := map[string]bool{}
+	for _, st := range m.stores["@id"] {
+		if st.target == nil || st.target.K != symElem {
+			continue // the report node's own constant id, nested ids (set by the recursion)
 		}
+		bk, isBucket := rbBucketKey(st.target.X)
+		if !isBucket {
+			continue
+		}
+		roots[bk] = true
+		want := strconv.Quote(bk+"_") + "+#" + st.target.X.String()
+		r.Check(st.val.String() == want, "C12.J1", relOf(pk)+"#root-id:"+bk, p.Pos(st.pos), "the i-th result of the "+bk+" bucket is named "+bk+"_i", "the root id of the results of the "+bk+" bucket is "+st.val.String()+", expected "+want+": two results can receive the same id")
+	}
+	for _, l := range c03Levels {
+		if !roots[l] {
+			r.Unknown("C12.J1", relOf(pk)+"#root-id:"+l, p.Pos(m.build.Pos()), "no @id assignment to the elements of the "+l+" bucket was recognised")
+		}
+	}
+	if len(m.stores["result"]) == 0 {
+		r.Unknown("C12.J1", relOf(pk)+"#results-appended", p.Pos(m.build.Pos()), "no value stored under the report node's result key was found")
+	}
+	for _, st := range m.stores["result"] {
+		why := m.resultListProblems(st)
+		r.Check(len(why) == 0, "C12.J1", relOf(pk)+"#results-appended", p.Pos(st.pos), "the result list holds every tagged element of every bucket, appended without gaps", strings.Join(why, "; ")+": null entries or duplicated nodes break the document")
 	}
 }
 
